@@ -4,15 +4,29 @@ import sys
 sys.path.insert(0, os.path.join(os.path.dirname(os.path.dirname(os.path.abspath(__file__))), "translate"))
 import c10_consts  # noqa: E402
 
+def c10_consts_tr():
+    """runs the translator; its shape observations (never errors) are shown among the assumptions of the evidence"""
+    errs = c10_consts.translate()
+    keep = [a for a in SPEC["assumptions"] if not a.startswith("translator note: ")]
+    SPEC["assumptions"][:] = keep + ["translator note: " + n for n in c10_consts.NOTES]
+    return errs
+
+
+c10_consts_tr.__name__ = "c10_consts"
+
+
 SPEC = {
     # the placeholder constants are EXTRACTED from the Rust source (not hand-written): translate/c10_consts.py
-    # parses the keep-condition of each retain level of remove_dummy.rs (strict shape, fail closed), the
-    # MethodName::INIT/CLINIT constants of duke and the format!("p_{}", k.index) of insert_dummy.rs and
-    # writes coq/C10/Consts.v.  Theorem C10_placeholder_constants pins the generated values to the
-    # documented ones, so a changed prefix breaks an obligation; the correspondence run cross-checks them.
-    "translators": [c10_consts.c10_consts],
+    # collects, per retain level of remove_dummy.rs, the literals of the starts_with(…) calls and the
+    # MethodName::… constants / == "…" comparisons (tolerant of renames, operand order, hoisted constants,
+    # braces), the value of the MethodName constants of duke and the prefix of the format!("p_{}", k.index) of
+    # insert_dummy.rs, and writes coq/C10/Consts.v.  It fails closed only when a literal cannot be found or
+    # is ambiguous; it does NOT check the shape of the conditions (the model hard-codes the shape; the
+    # correspondence run and the oracle tie it).  Theorem C10_placeholder_constants pins the generated values
+    # to the documented ones, so a changed prefix breaks an obligation.
+    "translators": [c10_consts_tr],
     "trusted": [
-        "C10: translate/c10_consts.py (regex / balanced-parenthesis reader of remove_dummy.rs, insert_dummy.rs and the two MethodName constants; fails closed on any other shape of the keep-conditions); its output coq/C10/Consts.v is pinned by theorem C10_placeholder_constants and exercised by every correspondence case",
+        "C10: translate/c10_consts.py (literal extractor: per retain level of remove_dummy.rs the arguments of starts_with(…), the MethodName::… constants and == \"…\" comparisons; the prefix of the one format!(\"<prefix>{}\", index) of insert_dummy.rs; the string literal of each MethodName constant referred to; identifiers resolved through const/static/let string definitions of the same file; canonical order). It fails closed only when a literal cannot be found or is ambiguous, and is deliberately blind to the SHAPE of the conditions (renaming closure parameters or locals, reordering || operands, hoisting a literal into a const, inlining get_simplified leave Consts.v unchanged — tested on mutated copies of the three source files); shape observations are reported as `translator note:` lines among the assumptions. Its output coq/C10/Consts.v is pinned by theorem C10_placeholder_constants; the shape of the keep-conditions and the three key-derived placeholders are tied by the correspondence run (every level's truth table) and the reference oracle only",
         "C10: the specification side of the theorems is the declarative reading in coq/C10/Theory.v (Placeholder, Kept*, Retained, Spec*, Changes, Rewritten), restated definition by definition in C10_kept_definitions / C10_insert_definitions so that the pinned statements are self-explanatory",
         "C10: the harness' independent reference of the documented rules (harness/src/bin/c10.rs ref_*: literal prefixes, bottom-up Option-returning recursion) is the oracle used to search for failing inputs on the implementation",
         "C10: the model's diff tree (coq/C10/Model.v mdiff) stores IndexMap keys beside the nodes; the harness builds MappingsDiff by inserting into the public IndexMaps",
